@@ -16,7 +16,7 @@ def plan(tier):
     K = keys(2)
     subsets = [(k,) for k in K] + [t for t in itertools.product(K, repeat=2) if t[0] <= t[1]]
     if tier == 'quick':
-        shrinks = [(5,), (5, 5), (1,), (1, 5), (3,), (3, 4), (1, 2), (5, 1)]
+        shrinks = [(5,), (5, 5), (1,), (1, 5), (3, 4), (1, 2)]   # (3,) and (5,1) in the thorough tier only (quick tier time budget)
         probes = [(3, 4)]
     else:
         shrinks = [t for _, t in patterns(2)]
